@@ -14,7 +14,7 @@ CLAIMED.update({
     "C16": dict(
         engine="A",
         technique="deterministic simulation: seeded call histories over caller-owned protobufs in forked subject processes (re-runs, pre-annotation, persist/reload, restart, resource/storage/allocation faults) checked step by step against an executable reference model of the annotation merge",
-        text="Every check/check_all step of every history is executed on clean clones (per-call verdict V) and on the history-laden protobufs; after each step the real test_info must equal merge(pre, V) of a small independent model (result OR, severity max, factor-set union, no duplicate entries, weak flag, version), exactly one entry per declared active check after an all-checks call, documented severities, return value <=> some positive verdict, and CheckIssuerKey's verdict equals an in-process CheckAllEC oracle on the issuer keys. Histories include restarts with only the serialised protobufs surviving and healed faults during the lazy registry fill. Sampling of histories, not proof.",
+        text="Every check/check_all step of every history is executed on clean clones (per-call verdict V) and on the history-laden protobufs; after each step the real test_info must equal merge(pre, V) of a small independent model (result OR, severity max, factor-set union, no duplicate entries, weak flag, version), exactly one entry per declared active check after an all-checks call, documented severities, return value <=> some positive verdict, and CheckIssuerKey's verdict equals an in-process CheckAllEC oracle on the issuer keys. Histories include restarts with only the serialised protobufs surviving and healed faults: resource opens that fail or are torn, a Storage that raises mid-batch or in a constructor, and MemoryError at the k-th function entry of the library (sys.monitoring), also during the lazy registry fill. Sampling of histories, not proof.",
         note="Trusts: the in-memory protobuf substitute; that no check reads test_info (so V on a clean clone equals the verdict on the annotated original); README severity table as documentation; knob max_diff 2^8..2^16 instead of the shipped 2^24.",
         design_ref="DESIGN.md §4 C16"),
     "C17": dict(
@@ -32,7 +32,7 @@ CLAIMED.update({
     "C18": dict(
         engine="A",
         technique="deterministic simulation: crash-freedom invariant at every step of seeded histories over degenerate-heavy pools, including the first call after healed seam faults and after restarts",
-        text="At every check/check_all step on a batch inside the statement's domain (any size incl. 0, duplicates, unknown/binary curve ids, coordinates empty/zero/p/huge/off-curve, moduli prime/even/square/power of two/odd length/64-bit, any exponent, r,s in [1,n-1], any hash length, invalid issuer keys) the call must return a bool without raising, in a fresh process, after any history, after restart and after a healed resource/storage/allocation fault. Input coverage is sampling, not enumeration.",
+        text="At every check/check_all step on a batch inside the statement's domain (any size incl. 0, duplicates, unknown/binary curve ids, coordinates empty/zero/p/huge/off-curve, moduli prime/even/square/power of two/odd length/64-bit, any exponent, r,s in [1,n-1], any hash length, invalid issuer keys) the call must return a bool without raising and within a per-call watchdog, in a fresh process, after any history, after restart and after a healed resource/storage/allocation fault (including MemoryError at an arbitrary function entry of an earlier call). Input coverage is sampling, not enumeration.",
         note="Trusts: the well-formedness predicate of the generator mirrors the statement's domain; calls made while a fault fires are not judged.",
         design_ref="DESIGN.md §4 C18"),
     "C10": dict(
@@ -44,7 +44,7 @@ CLAIMED.update({
     "C13": dict(
         engine="C",
         technique="deterministic simulation: the suite driver as a state machine under scripted p-value streams, a stub Source, simulated clock jumps and source/test faults, checked against a reference decision model with an independent Fisher combination; end-to-end runs with real tests on seeded generators",
-        text="Driver runs: real TestStructure/TestSource/TestBitString/CombinedPValue with stub tests returning scripted p-values (0, 1, ties with both levels, values just above/below thresholds, floats/ints/np.float64, named lists whose sub-tests appear late, InsufficientDataError on the j-th run, a Source that raises); the model predicts per-sub-test states, finished flags, the exact number of rounds and Source pulls, per-test run counts and the return value. End-to-end runs: seeded SHAKE128/PCG64/Philox must pass at 2^20..2^24 bits, the documented weak generators must fail the documented test at the documented sizes, and the decision rule is re-checked on the real p-values.",
+        text="Driver runs: real TestStructure/TestSource/TestBitString/CombinedPValue with stub tests returning scripted p-values (0, 1, ties with both levels, values just above/below thresholds, floats/ints/np.float64, named lists whose sub-tests appear late, InsufficientDataError on the j-th run, a Source that raises); the model predicts per-sub-test states, finished flags, the exact number of rounds and Source pulls, per-test run counts and the return value. A fault sweep kills a cheap suite call with MemoryError at its k-th library function entry and judges the following calls of the same process. End-to-end runs: seeded SHAKE128/PCG64/Philox must pass at 2^20..2^24 bits, the documented weak generators must fail the documented test at the documented sizes, and the decision rule is re-checked on the real p-values.",
         note="Trusts: mpmath closed form of Fisher's method; near-ties (1e-9 relative) are accepted either way; statistical clauses are sampled over seeds.",
         design_ref="DESIGN.md §4 C13"),
 })
